@@ -226,9 +226,31 @@ func c18Moffs32(yield func(sem.Stmt)) {
 	}
 }
 
+// c18Mems: memory destinations whose shortest address encoding is easy to miss: every 16-bit shape and a
+// selection of 32-bit ones, without displacement and with displacements on both sides of the disp8 range
+func c18Mems(size string) []sem.Operand {
+	var out []sem.Operand
+	shapes := append(append([]memShape{}, shapes16()...), memShape{Base: "EBX"}, memShape{Base: "EBP"}, memShape{Base: "ESP"}, memShape{Base: "EAX", Index: "ECX", Scale: 4}, memShape{Base: "EBP", Index: "ESI", Scale: 1}, memShape{Index: "EDX", Scale: 2})
+	for _, sh := range shapes {
+		if sh.Base == "" && sh.Index == "" {
+			continue
+		}
+		for _, d := range []struct {
+			has bool
+			v   int64
+		}{{false, 0}, {true, 1}, {true, 127}, {true, 128}, {true, -128}, {true, -129}} {
+			if d.has && !okDisp(sh, d.v) {
+				continue
+			}
+			out = append(out, sem.M(sem.Mem{Size: size, Base: sh.Base, Index: sh.Index, Scale: sh.Scale, Disp: d.v, HasDisp: d.has}))
+		}
+	}
+	return out
+}
+
 var propC18 = &Prop[InstCase]{
 	ID:   "C18",
-	Rule: "ADD/OR/AND/SUB/XOR/CMP x every register of each width and typed memory destinations x immediates on both sides of -128/127 and the boundary set; MOV accumulator <-> absolute address; MOV reg,imm; PUSH/POP reg; BITS 16/32; oracle: decodes to the statement (C01's comparison) and length <= reference minimum (prefixes + opcode + minimal ModR/M/SIB/disp + minimal immediate form; equal-length alternatives accepted); non-trivial = at least two legal encodings of different length exist; distinct by (mode, statement)",
+	Rule: "ADD/OR/AND/SUB/XOR/CMP x every register of each width and typed memory destinations (every 16-bit shape and several 32-bit ones, without displacement and with displacements on both sides of the disp8 range) x immediates on both sides of -128/127 and the boundary set; MOV accumulator <-> absolute address; MOV reg,imm; PUSH/POP reg; BITS 16/32; oracle: decodes to the statement (C01's comparison) and length <= reference minimum (prefixes + opcode + minimal ModR/M/SIB/disp + minimal immediate form; equal-length alternatives accepted); non-trivial = at least two legal encodings of different length exist; distinct by (mode, statement)",
 	Gen: func(t *rapid.T) InstCase {
 		mode := rapid.SampledFrom([]int{0, 16, 32}).Draw(t, "mode")
 		if rapid.IntRange(0, 9).Draw(t, "moffs") == 0 {
@@ -239,6 +261,13 @@ var propC18 = &Prop[InstCase]{
 		fs := c18Forms()
 		f := fs[rapid.IntRange(0, len(fs)-1).Draw(t, "form")]
 		st := drawForm(t, f)
+		// memory destinations: half of them from the shapes whose shortest form is easy to miss
+		for i := range st.Ops {
+			if st.Ops[i].Kind == sem.KMem && rapid.Bool().Draw(t, "c18mem") {
+				ms := c18Mems(st.Ops[i].Mem.Size)
+				st.Ops[i] = ms[rapid.IntRange(0, len(ms)-1).Draw(t, "c18memi")]
+			}
+		}
 		// bias immediates to the sign-extension boundary
 		for i := range st.Ops {
 			if st.Ops[i].Kind == sem.KImm && rapid.Bool().Draw(t, "nearb") {
@@ -275,6 +304,15 @@ var propC18 = &Prop[InstCase]{
 					}
 				}
 				rec(0, nil)
+			}
+			for _, sz := range []string{"BYTE", "WORD", "DWORD"} {
+				for _, m := range c18Mems(sz) {
+					for _, op := range []string{"ADD", "CMP"} {
+						for _, v := range []int64{1, -128, 300} {
+							yield(InstCase{Mode: mode, St: sem.Stmt{Mn: op, Ops: []sem.Operand{m, immOp(v, 1)}}, Cls: "alu.mi"})
+						}
+					}
+				}
 			}
 			c18Moffs(func(s sem.Stmt) { yield(InstCase{Mode: mode, St: s, Cls: "mov.moffs"}) })
 			if mode == 32 {
